@@ -779,6 +779,20 @@ func (e *engine) report(res *checkResult) (exit int) {
 	for _, u := range res.unsupported {
 		assumptions = append(assumptions, "outside subset (function not counted as proved): "+u)
 	}
+	// a sweep's root functions are entered by code outside the sweep: their preconditions are assumptions about
+	// that caller (for Typecheck: about what the parser and the mode-inference pass hand over)
+	for _, r := range e.w.db.Scopes[prop] {
+		if ct := e.w.db.Contracts[r]; ct != nil {
+			for _, cl := range ct.clausesFor(prop) {
+				if cl.Kind == "requires" {
+					assumptions = append(assumptions, "precondition of the sweep's entry point "+r+", assumed of its callers: "+cl.Src)
+				}
+			}
+		}
+	}
+	for _, cl := range e.w.db.Invariants[prop] {
+		assumptions = append(assumptions, "state invariant of the sweep, assumed on entry to its entry point (and proved at every exit, call and loop head inside): "+cl.Src)
+	}
 	if len(e.w.db.Markers) > 0 {
 		assumptions = append(assumptions, "assume/axiom markers in contract files: "+strings.Join(e.w.db.Markers, " | "))
 	} else {
